@@ -36,6 +36,7 @@ import (
 type stackFacts struct {
 	holderParked  bool // retryLocked -> ... -> writeQuota.get
 	watcherOnLock bool // clientStream.finish waiting for a sync.Mutex
+	watcherAlive  bool // the stream's context watcher goroutine exists
 }
 
 func readStacks() stackFacts {
@@ -52,6 +53,9 @@ func readStacks() stackFacts {
 	for _, g := range strings.Split(string(buf), "\n\n") {
 		if strings.Contains(g, "(*clientStream).retryLocked") && strings.Contains(g, "(*writeQuota).get") {
 			f.holderParked = true
+		}
+		if strings.Contains(g, "grpc.newClientStreamWithParams.func") && !strings.Contains(g, "(*clientStream).withRetry") {
+			f.watcherAlive = true
 		}
 		if strings.Contains(g, "(*clientStream).finish") && strings.Contains(g, "sync.(*Mutex).Lock") {
 			hdr := g
@@ -184,7 +188,7 @@ func runReplayBlocked(r *vlib.Run, idx int, variant string) {
 		cancel()
 	}
 	// now the RPC must end; poll for either fact
-	stable := 0
+	stable, orphan := 0, 0
 	wd = time.Now().Add(30 * time.Second)
 	for {
 		if isDone() {
@@ -208,6 +212,17 @@ func runReplayBlocked(r *vlib.Run, idx int, variant string) {
 			stable++
 		} else {
 			stable = 0
+		}
+		if f.holderParked && !f.watcherAlive {
+			orphan++
+		} else {
+			orphan = 0
+		}
+		if orphan >= 50 {
+			r.Nontrivial("replay-blocked/" + variant + "/unwatched")
+			r.Violation("ctx-not-propagated:after-retry", fam, idx, detail,
+				"the RPC is on its retry attempt, parked in writeQuota.get, its context has ended, and NO goroutine watches the context any more (no newClientStreamWithParams watcher in %d consecutive stack snapshots 20 ms apart): nothing will ever end this RPC", orphan)
+			return
 		}
 		if stable >= 5 {
 			what := "cancelled"
